@@ -13,6 +13,20 @@ import random
 from . import strings as S
 
 
+def _int(text):
+    """int(text) for recipes, also beyond the interpreter's int <-> text limit (the recipe is ours, not an input of the library)"""
+    try:
+        return int(text)
+    except ValueError:
+        import sys
+        lim = sys.get_int_max_str_digits()
+        sys.set_int_max_str_digits(0)
+        try:
+            return int(text)
+        finally:
+            sys.set_int_max_str_digits(lim)
+
+
 def _scalar(r, key=False, classes=None):
     c = r.random()
     if c < 0.5:
@@ -73,6 +87,12 @@ def gen_spec(r, max_nodes=14, max_depth=6, str_classes=None, cyclic=True, root_c
     depth = {0: 0}
 
     def scalar(key=False):
+        if not key and len(nodes) > ncont and r.random() < 0.12:
+            # an equal but distinct twin of an earlier scalar (two equal dates, strings, ...): nothing is shared, so nothing may be aliased
+            twin = r.choice(nodes[ncont:])
+            nodes.append([twin[0]] + [list(x) if isinstance(x, list) else x for x in twin[1:]])
+            classes.add('equal_twin')
+            return len(nodes) - 1
         n, c = _scalar(r, key=key, classes=str_classes)
         classes.add(c)
         nodes.append(n)
@@ -142,7 +162,7 @@ def build(spec, perm_seed=None):
         if t == 's':
             objs[i] = n[1]
         elif t == 'i':
-            objs[i] = int(n[1])
+            objs[i] = _int(n[1])
         elif t == 'f':
             objs[i] = float('nan') if n[1] == 'nan' else float.fromhex(n[1])
         elif t == 'b':
